@@ -42,7 +42,9 @@ tvars == <<l, ps, pgs, metas, live, shFree, shPend, readers, w, dirty, dec, use,
 NoW == [txid |-> 0]
 NoFh == [h |-> "", len |-> -1, wrote |-> TRUE]
 NoUse == [first |-> -1, prevnp |-> -1, pinned |-> FALSE, n |-> 0, maxnp |-> 0]
-BadMeta == [txid |-> -1]
+\* (total: a file whose headers are all invalid for the pinned layout is reported by the rules, not by a TLC exception)
+BadMeta == [txid |-> -1, pid |-> -1, ptype |-> 0, slot |-> -1, magic_ok |-> FALSE, version |-> 0, pagesize |-> 0, root |-> 0,
+            ctr |-> 0, np |-> 0, fl |-> 0, hash_ok |-> FALSE, legacy |-> FALSE]
 BIG == 1000000000
 
 Rep(rule, detail) ==
@@ -134,7 +136,7 @@ Snapshot(pg, m) ==
 
 MetaOf(e) == IF e.hash_ok /\ e.ptype = 3 THEN e ELSE BadMeta
 CurSlot == ChooseSlot(metas)
-CurMeta == metas[CurSlot]
+CurMeta == IF CurSlot >= 0 THEN metas[CurSlot] ELSE BadMeta
 
 TInit ==
     /\ l = 1 /\ ps = 1024
@@ -193,7 +195,7 @@ TMetaRead ==
             /\ w' = [txid |-> Ev.tx_id + 1, base |-> Ev.slot, free |-> shFree, pend |-> shPend,
                      tree |-> IF Ev.tx_id \in DOMAIN live THEN live[Ev.tx_id] ELSE {},
                      alloc |-> {}, written |-> {}, np |-> CurMeta.np, fl |-> CurMeta.fl,
-                     phase |-> "open", metaSynced |-> FALSE]
+                     phase |-> "open", metaSynced |-> FALSE, before |-> {}, left |-> {}]
        ELSE UNCHANGED w
     /\ UNCHANGED <<ps, pgs, metas, live, shFree, shPend, readers, dirty, dec, use, initing, fh>>
 
@@ -210,8 +212,31 @@ TRelease ==
             /\ Check(\A i \in 1..Len(readers) : readers[i] \in DOMAIN live =>
                           live[readers[i]] \cap UNION {w.pend[t] : t \in rel} = {},
                      "reader-page-released", <<b, readers>>)
-            /\ w' = [w EXCEPT !.free = @ \cup UNION {w.pend[t] : t \in rel}, !.pend = pend2]
+            /\ w' = [w EXCEPT !.free = @ \cup UNION {w.pend[t] : t \in rel}, !.pend = pend2, !.before = {}, !.left = {}]
     /\ UNCHANGED <<ps, pgs, metas, live, shFree, shPend, readers, dirty, dec, use, initing, fh>>
+
+\* What release() really did: the code lists its pending entries (transaction ids) before and after the loop.
+\* An entry that disappeared although a transaction newer than the oldest open snapshot freed it still belongs to
+\* that reader's snapshot (C03 / C04); an entry that stayed although nobody can need it is never reused (C10).
+TPendingEntry ==
+    /\ (IsEv("fl:pending") \/ IsEv("fl:pending_left"))
+    /\ IF w = NoW THEN UNCHANGED w
+       ELSE IF Ev.ev = "fl:pending" THEN w' = [w EXCEPT !.before = @ \cup {Ev.tx}]
+       ELSE w' = [w EXCEPT !.left = @ \cup {Ev.tx}]
+    /\ UNCHANGED <<ps, pgs, metas, live, shFree, shPend, readers, dirty, dec, use, initing, fh>>
+
+TReleased ==
+    /\ IsEv("fl:released")
+    /\ IF w = NoW THEN TRUE
+       ELSE LET oldest == MinOf(Snaps \cup {w.txid - 1})
+                gone == w.before \ w.left IN
+            /\ Check(\A t \in gone : t <= oldest, "reader-page-released",
+                     <<"entries released", gone, "oldest snapshot in use", oldest, readers>>)
+            /\ Check(\A t \in w.left : t >= MinOf(Snaps \cup {w.txid}), "must-release",
+                     <<"entries kept", w.left, w.txid, readers>>)
+            /\ Check(w.left \subseteq w.before /\ Ev.npending = Cardinality(w.left), "release-result",
+                     <<w.before, w.left, Ev.npending>>)
+    /\ UNCHANGED <<ps, pgs, metas, live, shFree, shPend, readers, w, dirty, dec, use, initing, fh>>
 
 \* a read-only transaction is ready / goes away (hooks outside the registry code)
 TReady ==
@@ -401,13 +426,13 @@ TFileHash ==
     /\ fh' = [h |-> Ev.h, len |-> Ev.len, wrote |-> FALSE]
     /\ UNCHANGED <<ps, pgs, metas, live, shFree, shPend, readers, w, dirty, dec, use, initing>>
 
-Known == {"reset", "seed", "cycle", "filehash", "init:enter", "init:synced", "open:meta", "tx:meta_read", "fl:release", "tx:ready", "drop:enter", "fl:free", "fl:alloc",
+Known == {"reset", "seed", "cycle", "filehash", "init:enter", "init:synced", "open:meta", "tx:meta_read", "fl:release", "fl:pending", "fl:pending_left", "fl:released", "tx:ready", "drop:enter", "fl:free", "fl:alloc",
           "commit:fl_alloc", "commit:sized", "write", "sync", "commit:published", "commit:done", "drop:done", "parse"}
 TOther ==
     /\ l <= Len(Rec) /\ Rec[l].ev \notin Known /\ l' = l + 1
     /\ UNCHANGED <<ps, pgs, metas, live, shFree, shPend, readers, w, dirty, dec, use, initing, fh>>
 
-TNext == TReset \/ TSeed \/ TFileHash \/ TCycle \/ TInitFile \/ TOpenMeta \/ TMetaRead \/ TRelease \/ TReady \/ TDropEnter \/ TFree \/ TAlloc \/ TFlAlloc
+TNext == TReset \/ TSeed \/ TFileHash \/ TCycle \/ TInitFile \/ TOpenMeta \/ TMetaRead \/ TRelease \/ TPendingEntry \/ TReleased \/ TReady \/ TDropEnter \/ TFree \/ TAlloc \/ TFlAlloc
          \/ TSized \/ TWritePage \/ TSync \/ TWriteMeta \/ TPublished \/ TCommitDone \/ TDropDone \/ TParse \/ TOther
 
 TSpec == TInit /\ [][TNext]_tvars
